@@ -11,6 +11,11 @@ from props import _channel_lib as L
 F13_SIG = 'eof-callback-lost:close-overtakes-pending-eof'
 F2_SIG = 'send-loop-spins:max-packet-size-0'
 F3_SIG = 'window-exceeded-while-paused'
+EOF_UNSENT_SIG = 'eof-not-sent:close-overrides-pending-eof'
+
+
+def _zero_pktsize(case: Dict[str, Any]) -> bool:
+    return bool(case.get('effective_zero')) or any(c['pa'] == 0 or c['pb'] == 0 for c in case['chans'])
 
 
 def tagged(chunks: List[Tuple[Optional[int], bytes]]) -> List[Tuple[int, Optional[int]]]:
@@ -33,21 +38,38 @@ def app_closed(case: Dict[str, Any], results: List[str]) -> Dict[Tuple[str, int]
     return out
 
 
-def delivered(events: List[Tuple[Any, ...]]) -> Tuple[List[Tuple[Optional[int], bytes]], List[str]]:
-    """(data chunks as bytes, kinds in order) of one session's callbacks"""
+def delivered(events: List[Tuple[Any, ...]]) -> Tuple[List[Tuple[Optional[int], Any]], List[str]]:
+    """(data chunks — bytes, or str on a text channel —, kinds in order) of one session's callbacks"""
     chunks, kinds = [], []
     for e in events:
         kinds.append(e[0])
         if e[0] == 'd':
-            data = e[2].encode('utf-8') if isinstance(e[2], str) else bytes(e[2])
-            chunks.append((e[1], data))
+            chunks.append((e[1], e[2] if isinstance(e[2], str) else bytes(e[2])))
     return chunks, kinds
+
+
+def expected_units(writes: List[Tuple[Optional[int], bytes]], text: bool) -> Optional[List[Tuple[Any, Optional[int]]]]:
+    """what the receiving application must see, as a stream of units (bytes, or characters on a text channel)
+    each tagged with its datatype; None if the written bytes are not valid UTF-8 (a text receiver then fails)"""
+    if not text:
+        return tagged(writes)
+    import codecs
+    dec = codecs.getincrementaldecoder('utf-8')('strict')
+    out: List[Tuple[Any, Optional[int]]] = []
+    for dt, data in writes:
+        try:
+            out += [(ch, dt) for ch in dec.decode(data)]
+        except UnicodeDecodeError:
+            return None
+    return out
 
 
 def check_c07(case: Dict[str, Any], res: Dict[str, Any]) -> List[Failure]:
     """bytes delivered == bytes written per channel and datatype (order across datatypes included), nothing
     duplicated or reordered ever, EOF iff signalled and last"""
     fails: List[Failure] = []
+    if res.get('error') and _zero_pktsize(case) and 'ChannelOpenError' in str(res['error']):
+        return []
     if res.get('error'):
         return [Failure('harness-error:' + str(res['error'])[:60], f'real run failed: {res["error"]}', {'case': case})]
     results = res['results']
@@ -55,17 +77,25 @@ def check_c07(case: Dict[str, Any], res: Dict[str, Any]) -> List[Failure]:
     closed = app_closed(case, results)
     fatal = res.get('dead')
     wire = res['wire']
+    if fatal and fatal != 'decode' and case.get('profile') != 'hostile':
+        # two honest endpoints: the only legitimate ProtocolError is a decode error of deliberately invalid UTF-8
+        fails.append(Failure('protocol-error-between-honest-peers:' + str(fatal),
+                             f'the connection was torn down ({fatal}) although both peers followed the protocol: '
+                             f'data in flight is lost', {'case': case}))
     for i in range(len(case['chans'])):
         for x, y in (('a', 'b'), ('b', 'a')):
-            wr = tagged(writes.get((x, i), []))
+            text = bool(case['chans'][i].get('decA' if y == 'a' else 'decB'))
+            wr = expected_units(writes.get((x, i), []), text)
             chunks, kinds = delivered(res['events'][y][i])
-            dl = tagged(chunks)
-            where = f'channel {i} direction {x}->{y}'
+            dl = [(u, dt) for dt, data in chunks for u in data]
+            where = f'channel {i} direction {x}->{y}' + (' (text)' if text else '')
+            if wr is None:
+                continue
             if dl != wr[:len(dl)]:
                 k = next((j for j in range(min(len(dl), len(wr))) if dl[j] != wr[j]), min(len(dl), len(wr)))
                 kind = 'duplicated-or-extra' if len(dl) > len(wr) and dl[:len(wr)] == wr else 'corrupted-or-reordered'
                 fails.append(Failure(f'stream-{kind}', f'{where}: delivered bytes are not a prefix of the bytes written '
-                                     f'(first difference at byte {k}; {len(dl)} delivered, {len(wr)} written)',
+                                     f'(first difference at unit {k}; {len(dl)} delivered, {len(wr)} written)',
                                      {'case': case}))
                 continue
             sent_eof = any(c == i and m == 'E' for c, m, _k in wire[x])
@@ -81,19 +111,33 @@ def check_c07(case: Dict[str, Any], res: Dict[str, Any]) -> List[Failure]:
             if 'l' in kinds and kinds.index('l') != len(kinds) - 1:
                 fails.append(Failure('callback-after-connection-lost', f'{where}: callbacks after connection_lost',
                                      {'case': case}))
-            if fatal or closed.get((y, i)) or not res.get('drained'):
-                continue
+            if fatal or closed.get((y, i)) or not res.get('drained') or _zero_pktsize(case):
+                continue        # (a receiver advertising maximum packet size 0 forbids all data)
             if len(dl) != len(wr):
                 fails.append(Failure('stream-incomplete', f'{where}: {len(wr) - len(dl)} of {len(wr)} written bytes never '
                                      f'delivered although the reader reads and everything in flight was delivered',
                                      {'case': case}))
             if n_eof and len(dl) != len(wr):
                 fails.append(Failure('eof-before-all-data', f'{where}: eof_received before all data', {'case': case}))
+            # write_eof() accepted while the send half was still open (neither EOF nor CLOSE on the wire yet)
+            signalled = False
+            for k, (op, r) in enumerate(zip(case['ops'], results)):
+                if op[0] == 'app' and op[1] == x and op[2] == i and op[3] == 'eof' and r.startswith('ok '):
+                    closed_before = any(o[0] == 'app' and o[1] == x and o[2] == i and o[3] == 'close'
+                                        for o in case['ops'][:k])
+                    if not closed_before and not any(c == i and m in ('E', 'C') and j < k for c, m, j in wire[x]):
+                        signalled = True
+            if signalled and not sent_eof and not _zero_pktsize(case):
+                fails.append(Failure(EOF_UNSENT_SIG, f'{where}: the sender called write_eof() and then close() while '
+                                     f'data was still waiting for window: all {len(wr)} units were delivered and '
+                                     f'the channel closed, but the EOF message was never sent (close() replaces '
+                                     f'eof_pending by close_pending) and eof_received() was never called',
+                                     {'case': case}))
             if sent_eof and not n_eof:
                 if sent_close:
                     fails.append(Failure(F13_SIG, f'{where}: the sender wrote {len(wr)} bytes, signalled EOF and closed; the '
                                          f'session got all the data and connection_lost but eof_received() was never '
-                                         f'called (CLOSE arrived while the EOF was still pending behind undelivered data)',
+                                         f'called (CLOSE arrived while the EOF was still pending: reading paused or not started yet)',
                                          {'case': case}))
                 else:
                     fails.append(Failure('eof-not-delivered', f'{where}: EOF was sent and everything drained but '
@@ -106,11 +150,13 @@ def check_c08(case: Dict[str, Any], res: Dict[str, Any]) -> List[Failure]:
     a receiver accepts no more than it advertised; everything written is delivered to a reader that reads"""
     fails: List[Failure] = []
     if res.get('error') == 'spin' or res.get('dead') == 'spin' or res.get('error') == 'spin during setup':
-        zero = [i for i, c in enumerate(case['chans']) if c['pa'] == 0 or c['pb'] == 0]
+        zero = [i for i, c in enumerate(case['chans']) if c['pa'] == 0 or c['pb'] == 0] or case.get('effective_zero')
         sig = F2_SIG if zero else 'send-loop-spins'
         return [Failure(sig, 'an operation emitted more than %d packets: `_flush_send_buf` does not terminate '
                         '(peer advertised maximum packet size 0: every iteration sends an empty DATA packet)'
                         % L.PACKET_BUDGET, {'case': case})]
+    if res.get('error') and _zero_pktsize(case) and 'ChannelOpenError' in str(res['error']):
+        return []           # a peer advertising maximum packet size 0 is refused: nothing to check
     if res.get('error'):
         return [Failure('harness-error:' + str(res['error'])[:60], f'real run failed: {res["error"]}', {'case': case})]
     chans = case['chans']
@@ -182,6 +228,10 @@ def check_c08(case: Dict[str, Any], res: Dict[str, Any]) -> List[Failure]:
                                          f'bytes of advertised window left', {'case': case}))
         return fails
     # ---- liveness -------------------------------------------------------------------------------------------
+    if res.get('dead') and res.get('dead') not in ('decode', 'spin'):
+        fails.append(Failure('protocol-error-between-honest-peers:' + str(res.get('dead')),
+                             f'the connection was torn down ({res.get("dead")}) although both peers followed the '
+                             f'protocol', {'case': case}))
     if res.get('dead') or not res.get('drained'):
         if not res.get('dead') and 'drained' in res and res.get('drain_results') is not None and not res.get('drained') \
                 and res.get('drain_results'):
@@ -194,10 +244,13 @@ def check_c08(case: Dict[str, Any], res: Dict[str, Any]) -> List[Failure]:
         for x, y in (('a', 'b'), ('b', 'a')):
             if closed.get((y, i)):
                 continue
-            wr = tagged(writes.get((x, i), []))
+            if (chans[i]['pa'] if y == 'a' else chans[i]['pb']) == 0 or case.get('effective_zero'):
+                continue        # the receiver forbids all data: nothing can be delivered, by its own configuration
+            text = bool(chans[i].get('decA' if y == 'a' else 'decB'))
+            wr = expected_units(writes.get((x, i), []), text)
             chunks, _kinds = delivered(res['events'][y][i])
-            dl = tagged(chunks)
-            if len(dl) < len(wr):
+            dl = [(u, dt) for dt, data in chunks for u in data]
+            if wr is not None and len(dl) < len(wr):
                 fails.append(Failure('stalled:undelivered-data', f'channel {i} {x}->{y}: {len(wr) - len(dl)} written bytes '
                                      f'not delivered although the reader reads and nothing is in flight any more',
                                      {'case': case}))
